@@ -102,17 +102,6 @@ theorem asROf_below (fuel : Nat) : ∀ (s : State) (i : Nat), InvA s → ∀ j, 
         have hb := hA i o ho
         have h1 : InvA (asRO0 s i) := invA_asRO0 hA i
         have e1 : (asRO0 s i).objs[j]? = s.objs[j]? := asRO0_other s i j (Nat.ne_of_lt hj)
-        -- the cached wod
-        have h2 : InvA (match o.wodc with
-            | some w => asROf n (asRO0 s i) w
-            | none => asRO0 s i) ∧
-            (match o.wodc with
-            | some w => asROf n (asRO0 s i) w
-            | none => asRO0 s i).objs[j]? = s.objs[j]? := by
-          cases hw : o.wodc with
-          | none => exact ⟨h1, e1⟩
-          | some w =>
-            exact ⟨invA_asROf n _ w h1, (ih _ w h1 j (Nat.lt_trans hj (hb.wlt w hw).1)).trans e1⟩
         -- the derivatives
         have key : ∀ (l : List (Nat × Nat)) (st : State), InvA st → (∀ kd ∈ l, j < kd.2) →
             (l.foldl (fun s kd => asROf n s kd.2) st).objs[j]? = st.objs[j]? := by
@@ -124,8 +113,17 @@ theorem asROf_below (fuel : Nat) : ∀ (s : State) (i : Nat), InvA s → ∀ j, 
             simp only [List.foldl_cons]
             rw [ihl _ (invA_asROf n st x.2 hst) (fun kd hkd => hl kd (List.mem_cons_of_mem _ hkd))]
             exact ih st x.2 hst j (hl x (List.mem_cons_self ..))
-        rw [key _ _ h2.1 (fun kd hkd => Nat.lt_trans hj (hb.dlt kd hkd).1)]
-        exact h2.2
+        have hlt : ∀ kd ∈ o.derivs, j < kd.2 := fun kd hkd => Nat.lt_trans hj (hb.dlt kd hkd).1
+        -- the cached wod
+        cases hw : o.wodc with
+        | none =>
+          dsimp only
+          rw [key _ _ h1 hlt]
+          exact e1
+        | some w =>
+          dsimp only
+          rw [key _ _ (invA_asROf n _ w h1) hlt]
+          exact (ih _ w h1 j (Nat.lt_trans hj (hb.wlt w hw).1)).trans e1
     · rfl
 
 /-- the flag of an object never goes down and its derivative table stays, along `as_readonly` of anything -/
@@ -161,8 +159,10 @@ theorem invDX_asROf (fuel : Nat) : ∀ (s : State) (i : Nat) (X : Nat → Prop),
         -- after the flag is set: the object itself is the only one whose derivatives may lag behind
         have hi1 : ∃ o1, (asRO0 s i).objs[i]? = some o1 ∧ o1.ro = true ∧ o1.derivs = o.derivs := by
           refine ⟨{ o with ro := true }, ?_, rfl, rfl⟩
-          simp only [asRO0, ho, hro, if_false, State.setObj, getElem?_upd, if_true, objs_freezeM, objs_freezeV]
-          simp
+          have hobjs : (asRO0 s i).objs = upd s.objs i (fun o => { o with ro := true }) := by
+            simp [asRO0, ho, hro, State.setObj, objs_freezeM, objs_freezeV]
+          rw [hobjs, getElem?_upd]
+          simp [ho]
         have h1D : InvDX (fun j => X j ∨ j = i) (asRO0 s i) := by
           intro j x hx hjx hxro kd hkd
           have hji : j ≠ i := fun h => hx (Or.inr h)
@@ -172,27 +172,6 @@ theorem invDX_asROf (fuel : Nat) : ∀ (s : State) (i : Nat) (X : Nat → Prop),
           · obtain ⟨o1, ho1, r1, _⟩ := hi1
             exact ⟨o1, by rw [hk]; exact ho1, r1⟩
           · exact ⟨d, by rw [asRO0_other s i kd.2 hk]; exact hd1, hd2⟩
-        -- the cached wod
-        have h2 : InvA (match o.wodc with
-            | some w => asROf n (asRO0 s i) w
-            | none => asRO0 s i) ∧
-            InvDX (fun j => X j ∨ j = i) (match o.wodc with
-            | some w => asROf n (asRO0 s i) w
-            | none => asRO0 s i) ∧
-            (match o.wodc with
-            | some w => asROf n (asRO0 s i) w
-            | none => asRO0 s i).objs.length = s.objs.length ∧
-            ∃ o2, (match o.wodc with
-            | some w => asROf n (asRO0 s i) w
-            | none => asRO0 s i).objs[i]? = some o2 ∧ o2.ro = true ∧ o2.derivs = o.derivs := by
-          cases hw : o.wodc with
-          | none => exact ⟨h1A, h1D, hl1, hi1⟩
-          | some w =>
-            have hwl := (hb.wlt w hw).1
-            refine ⟨invA_asROf n _ w h1A, (ih _ w _ h1A h1D (by rw [hl1]; omega)).1, by rw [len_asROf, hl1], ?_⟩
-            obtain ⟨o1, ho1, r1, d1⟩ := hi1
-            obtain ⟨o2, ho2, r2, d2⟩ := asROf_keeps n _ w i o1 ho1 r1
-            exact ⟨o2, ho2, r2, d2.trans d1⟩
         -- the derivatives, one after the other
         have key : ∀ (l : List (Nat × Nat)) (st : State), InvA st → InvDX (fun j => X j ∨ j = i) st →
             st.objs.length = s.objs.length → (∀ kd ∈ l, i < kd.2 ∧ kd.2 < s.objs.length) →
@@ -218,27 +197,44 @@ theorem invDX_asROf (fuel : Nat) : ∀ (s : State) (i : Nat) (X : Nat → Prop),
               -- it exists, it is read-only after its own step, and stays so
               have hex : ∃ d1, (asROf n st kd.2).objs[kd.2]? = some d1 := by
                 have : kd.2 < (asROf n st kd.2).objs.length := by rw [hl1']; exact hx.2
-                exact ⟨_, by simp [this]⟩
+                exact ⟨(asROf n st kd.2).objs[kd.2], by simp [this]⟩
               obtain ⟨d1, hd1⟩ := hex
               have hr1 := hro1 d1 hd1
               obtain ⟨d2, hd2, k2⟩ :=
                 (oext_foldl (fun _ => False) _ (fun s (kd : Nat × Nat) => oext_asROf _ n s kd.2) xs _).keep kd.2 d1 hd1
               exact ⟨d2, hd2, (k2 hr1).1⟩
-        obtain ⟨h2A, h2D, h2l, o2, ho2, r2, d2⟩ := h2
-        obtain ⟨hDf, hrof⟩ := key o.derivs _ h2A h2D h2l hb.dlt
-        -- the object itself in the final state
-        obtain ⟨o3, ho3, k3⟩ :=
-          (oext_foldl (fun _ => False) _ (fun s (kd : Nat × Nat) => oext_asROf _ n s kd.2) o.derivs _).keep i o2 ho2
-        obtain ⟨r3, _, _, f3⟩ := k3 r2
-        have d3 : o3.derivs = o.derivs := (f3 (fun h => h)).2.trans d2
-        refine ⟨?_, fun o' ho' => by rw [ho3] at ho'; cases ho'; exact r3⟩
-        intro j x hx hjx hxro kd hkd
-        by_cases hji : j = i
-        · subst hji
-          rw [ho3] at hjx; cases hjx
-          rw [d3] at hkd
-          exact hrof kd hkd
-        · exact hDf j x (fun h => h.elim hx hji) hjx hxro kd hkd
+        have rest : ∀ s2 : State, InvA s2 → InvDX (fun j => X j ∨ j = i) s2 → s2.objs.length = s.objs.length →
+            (∃ o2, s2.objs[i]? = some o2 ∧ o2.ro = true ∧ o2.derivs = o.derivs) →
+            InvDX X (o.derivs.foldl (fun s kd => asROf n s kd.2) s2) ∧
+            ∀ o', (o.derivs.foldl (fun s kd => asROf n s kd.2) s2).objs[i]? = some o' → o'.ro = true := by
+          intro s2 h2A h2D h2l hex2
+          obtain ⟨o2, ho2, r2, d2⟩ := hex2
+          obtain ⟨hDf, hrof⟩ := key o.derivs _ h2A h2D h2l hb.dlt
+          -- the object itself in the final state
+          obtain ⟨o3, ho3, k3⟩ :=
+            (oext_foldl (fun _ => False) _ (fun s (kd : Nat × Nat) => oext_asROf _ n s kd.2) o.derivs _).keep i o2 ho2
+          obtain ⟨r3, _, _, f3⟩ := k3 r2
+          have d3 : o3.derivs = o.derivs := (f3 (fun h => h)).2.trans d2
+          refine ⟨?_, fun o' ho' => by rw [ho3] at ho'; cases ho'; exact r3⟩
+          intro j x hx hjx hxro kd hkd
+          by_cases hji : j = i
+          · subst hji
+            rw [ho3] at hjx; cases hjx
+            rw [d3] at hkd
+            exact hrof kd hkd
+          · exact hDf j x (fun h => h.elim hx hji) hjx hxro kd hkd
+        -- the cached wod
+        cases hw : o.wodc with
+        | none =>
+          dsimp only
+          exact rest _ h1A h1D hl1 hi1
+        | some w =>
+          dsimp only
+          have hwl := (hb.wlt w hw).1
+          obtain ⟨o1, ho1, r1, d1⟩ := hi1
+          obtain ⟨o2, ho2, r2, d2⟩ := asROf_keeps n _ w i o1 ho1 r1
+          exact rest _ (invA_asROf n _ w h1A) (ih _ w _ h1A h1D (by rw [hl1]; omega)).1
+            (by rw [len_asROf, hl1]) ⟨o2, ho2, r2, d2.trans d1⟩
     · rename_i hnone
       exact ⟨hD, fun o' ho' => by rw [hnone] at ho'; cases ho'⟩
 
@@ -248,5 +244,626 @@ theorem invD_asRO {s : State} (hA : InvA s) (h : InvD s) (i : Nat) (r : Bool) : 
 theorem asRO_ro {s : State} (hA : InvA s) (h : InvD s) (i : Nat) (r : Bool) :
     ∀ o', (asRO s i r).objs[i]? = some o' → o'.ro = true :=
   (invDX_asROf _ s i _ hA h (by omega)).2
+
+/-! ### the other pieces -/
+
+/-- both invariants together -/
+def Inv (s : State) : Prop := InvA s ∧ InvD s
+
+theorem invD_objs {s s' : State} (h : InvD s) (ho : s'.objs = s.objs) : InvD s' := invDX_objs h ho
+
+theorem inv_arrays {s s' : State} (h : Inv s) (he : Ext s s') (ho : s'.objs = s.objs) : Inv s' :=
+  ⟨invA_arrays h.1 he ho, invD_objs h.2 ho⟩
+
+theorem inv_foldl {α : Type} (f : State → α → State) (hf : ∀ s x, Inv s → Inv (f s x)) (l : List α) (s : State)
+    (h : Inv s) : Inv (l.foldl f s) := by
+  induction l generalizing s with
+  | nil => exact h
+  | cons x xs ih => exact ih _ (hf s x h)
+
+theorem inv_foldl_pair {α β : Type} (f : State × β → α → State × β) (hf : ∀ s x, Inv s.1 → Inv (f s x).1)
+    (l : List α) (s : State × β) (h : Inv s.1) : Inv (l.foldl f s).1 := by
+  induction l generalizing s with
+  | nil => exact h
+  | cons x xs ih => exact ih _ (hf s x h)
+
+theorem inv_asRO {s : State} (h : Inv s) (i : Nat) (r : Bool) : Inv (asRO s i r) :=
+  ⟨invA_asRO h.1 i r, invD_asRO h.1 h.2 i r⟩
+
+theorem inv_cloneNR {s : State} (h : Inv s) (i : Nat) : Inv (cloneNR s i).2 := by
+  refine ⟨invA_cloneNR h.1 i, ?_⟩
+  unfold cloneNR
+  split
+  · exact invDX_allocObj h.2 _ rfl
+  · exact h.2
+
+theorem inv_wodOf {s : State} (h : Inv s) (i : Nat) : Inv (wodOf s i).2 := by
+  refine ⟨invA_wodOf h.1 i, ?_⟩
+  unfold wodOf
+  split
+  · rename_i o ho
+    split
+    · exact h.2
+    · split
+      · exact h.2
+      · dsimp only
+        have hA1 : InvA (s.initObj o.vals o.mask o).2 := invA_initObj h.1 _ _ _
+        have hD1 : InvD (s.initObj o.vals o.mask o).2 := invD_objs h.2 (objs_initObj _ _ _ _)
+        have hb1 := hA1 i o (by rw [objs_initObj]; exact ho)
+        have hA2 : InvA ((s.initObj o.vals o.mask o).2.allocObj { (s.initObj o.vals o.mask o).1 with ro := o.ro }).2 :=
+          invA_allocObj hA1 _ (by simp [State.initObj]) (by simp [State.initObj])
+            (by simpa [State.initObj] using hb1.vok) (by simpa [State.initObj] using hb1.mok)
+            (by intro hr; simpa [State.initObj] using hb1.agr hr)
+        have hD2 := invDX_allocObj hD1 { (s.initObj o.vals o.mask o).1 with ro := o.ro } (by simp [State.initObj])
+        exact invDX_setObj_sub hA2 hD2 i _ (fun x => ⟨rfl, fun kd hkd => hkd⟩)
+  · exact h.2
+
+/-- the flags of existing objects are not changed by `wod` -/
+theorem wodOf_flag (s : State) (d j : Nat) (o : Obj) (ho : s.objs[j]? = some o) :
+    ∃ o', (wodOf s d).2.objs[j]? = some o' ∧ o'.ro = o.ro := by
+  have hj : j < s.objs.length := (List.getElem?_eq_some_iff.mp ho).1
+  unfold wodOf
+  split
+  · rename_i od hod
+    split
+    · exact ⟨o, ho, rfl⟩
+    · split
+      · exact ⟨o, ho, rfl⟩
+      · dsimp only
+        simp only [State.setObj, getElem?_upd, State.allocObj, objs_initObj]
+        rw [List.getElem?_append_left hj, ho]
+        by_cases hdj : d = j
+        · simp [hdj]
+        · simp [hdj]
+  · exact ⟨o, ho, rfl⟩
+
+theorem cloneNR_below (s : State) (d j : Nat) (hj : j < s.objs.length) : (cloneNR s d).2.objs[j]? = s.objs[j]? := by
+  unfold cloneNR
+  split
+  · simp only [State.allocObj]
+    exact List.getElem?_append_left hj
+  · rfl
+
+theorem cloneNR_get (s : State) (d : Nat) (od : Obj) (hd : s.objs[d]? = some od) :
+    (cloneNR s d).2.objs[(cloneNR s d).1]? = some { od with derivs := [], wodc := none } := by
+  simp [cloneNR, hd, State.allocObj]
+
+/-- what `matchReadonly` hands back exists; it is read-only when the parent is; objects that existed keep their record -/
+theorem matchReadonly_spec {s : State} (h : Inv s) (p : Bool) (d : Nat) (hd : d < s.objs.length) :
+    (∀ j, j < s.objs.length → (matchReadonly s p d).2.objs[j]? = s.objs[j]?) ∧
+    (p = true → ∃ x, (matchReadonly s p d).2.objs[(matchReadonly s p d).1]? = some x ∧ x.ro = true) := by
+  have hod : s.objs[d]? = some s.objs[d] := by simp [hd]
+  have hc1 : (cloneNR s d).1 = s.objs.length := cloneNR_fst s d _ hod
+  have hcI : Inv (cloneNR s d).2 := inv_cloneNR h d
+  unfold matchReadonly
+  simp only [hod]
+  by_cases hcond : (p && !(s.objs[d]).ro) = true
+  · simp only [hcond, if_true]
+    constructor
+    · intro j hj
+      have := asROf_below ((cloneNR s d).2.objs.length + 1) (cloneNR s d).2 (cloneNR s d).1 hcI.1 j (by rw [hc1]; exact hj)
+      exact (show (asRO (cloneNR s d).2 (cloneNR s d).1 true).objs[j]? = _ from this).trans (cloneNR_below s d j hj)
+    · intro _
+      have hlt : (cloneNR s d).1 < (asRO (cloneNR s d).2 (cloneNR s d).1 true).objs.length := by
+        rw [len_asRO, hc1]; simp [cloneNR, hod, State.allocObj]
+      have hex : (asRO (cloneNR s d).2 (cloneNR s d).1 true).objs[(cloneNR s d).1]? =
+          some ((asRO (cloneNR s d).2 (cloneNR s d).1 true).objs[(cloneNR s d).1]) := by simp [hlt]
+      exact ⟨_, hex, asRO_ro hcI.1 hcI.2 _ true _ hex⟩
+  · simp only [hcond, if_false]
+    refine ⟨fun j hj => cloneNR_below s d j hj, ?_⟩
+    intro hp
+    refine ⟨_, cloneNR_get s d _ hod, ?_⟩
+    simp only [hp, Bool.true_and, Bool.not_eq_true', Bool.not_eq_false'] at hcond
+    simpa using hcond
+
+theorem inv_matchReadonly {s : State} (h : Inv s) (p : Bool) (d : Nat) : Inv (matchReadonly s p d).2 := by
+  unfold matchReadonly
+  simp only
+  split <;> split <;> (try dsimp only) <;>
+    first | exact inv_asRO (inv_cloneNR h _) _ _ | exact inv_cloneNR h _
+
+theorem inv_insertDeriv {s : State} (h : Inv s) (i k d : Nat) (ov : Bool) : Inv (insertDeriv s i k d ov).1 := by
+  refine ⟨invA_insertDeriv h.1 i k d ov, ?_⟩
+  unfold insertDeriv
+  split
+  · rename_i o od ho hod
+    split
+    · exact h.2
+    · split
+      · exact h.2
+      · have hi : i < s.objs.length := (List.getElem?_eq_some_iff.mp ho).1
+        have hd : d < s.objs.length := (List.getElem?_eq_some_iff.mp hod).1
+        have h1 : Inv (wodOf s d).2 := inv_wodOf h d
+        have hw := wodOf_lt h.1 d hd
+        have hl1 : s.objs.length ≤ (wodOf s d).2.objs.length := (oext_wodOf (fun _ => True) s d).len
+        obtain ⟨hc1, hc2⟩ := matchReadonly_fst (wodOf s d).2 o.ro (wodOf s d).1 hw
+        obtain ⟨hbelow, hro⟩ := matchReadonly_spec h1 o.ro (wodOf s d).1 hw
+        have h2 : Inv (matchReadonly (wodOf s d).2 o.ro (wodOf s d).1).2 := inv_matchReadonly h1 _ _
+        -- the target has the flag it had at the start
+        obtain ⟨o1, ho1, r1⟩ := wodOf_flag s d i o ho
+        have ho2 : (matchReadonly (wodOf s d).2 o.ro (wodOf s d).1).2.objs[i]? = some o1 := by
+          rw [hbelow i (Nat.lt_of_lt_of_le hi hl1)]; exact ho1
+        refine invDX_setObj h2.2 i _ ?_
+        intro o' ho'
+        rw [ho2] at ho'
+        cases ho'
+        refine ⟨fun hr => hr, ?_⟩
+        intro _ hr kd hkd
+        have hb := h2.1 i o1 ho2
+        cases mem_setKey hkd with
+        | inl hold =>
+          obtain ⟨x, hx1, hx2⟩ := h2.2 i o1 (fun hf => hf) ho2 hr kd hold
+          exact ⟨x, hx1, hx2, Nat.ne_of_gt (hb.dlt kd hold).1⟩
+        | inr hnew =>
+          subst hnew
+          obtain ⟨x, hx1, hx2⟩ := hro (r1 ▸ hr)
+          refine ⟨x, hx1, hx2, ?_⟩
+          dsimp only
+          rw [hc1]
+          exact Nat.ne_of_gt (Nat.lt_of_lt_of_le hi hl1)
+  · exact h.2
+
+theorem inv_allocObj {s : State} (h : Inv s) (o : Obj) (hd : o.derivs = []) (hw : o.wodc = none)
+    (hv : valOK s o.vals) (hm : mskOK s o.mask) (ha : Agrees s o) : Inv (s.allocObj o).2 :=
+  ⟨invA_allocObj h.1 o hd hw hv hm ha, invDX_allocObj h.2 o hd⟩
+
+theorem inv_cloneStep (c : Nat) (s : State) (kd : Nat × Nat) (h : Inv s) : Inv (cloneStep c s kd) :=
+  inv_insertDeriv (inv_cloneNR h _) _ _ _ _
+
+theorem inv_clone {s : State} (h : Inv s) (i : Nat) (r : Bool) : Inv (clone s i r).2 := by
+  unfold clone
+  split
+  · dsimp only
+    split
+    · exact inv_foldl _ (inv_cloneStep _) _ _ (inv_cloneNR h _)
+    · exact inv_cloneNR h _
+  · exact h
+
+/-- any piece that keeps `InvA` and allocates nothing but one object without derivatives keeps `InvD` -/
+theorem invD_of_objs_append {s s' : State} (h : InvD s) (o : Obj) (hd : o.derivs = [])
+    (ho : s'.objs = s.objs ++ [o]) : InvD s' := by
+  have := invDX_allocObj h o hd
+  intro i x hx hix hro kd hkd
+  rw [ho] at hix ⊢
+  exact this i x hx (by simpa [State.allocObj] using hix) hro kd hkd
+
+theorem inv_freezeSource {s : State} (h : Inv s) (i : Nat) (m : Mode) (v : Val) : Inv (freezeSource s i m v) := by
+  unfold freezeSource
+  split
+  · exact inv_asRO h _ _
+  · exact h
+
+theorem invD_finishDerived {s : State} (h : InvD s) (nv : Val) (nm : Msk) (o : Obj) (m : Mode) :
+    InvD (finishDerived s nv nm o m).2 := by
+  unfold finishDerived
+  dsimp only
+  refine invDX_allocObj (invD_objs h ?_) _ (by simp [State.initObj])
+  repeat' split
+  all_goals simp only [objs_freezeM, objs_freezeV, objs_initObj]
+
+theorem inv_derive1 {s : State} (h : Inv s) (i : Nat) (m : Mode) (sel : Sel) : Inv (derive1 s i m sel).2 := by
+  refine ⟨invA_derive1 h.1 i m sel, ?_⟩
+  unfold derive1
+  split
+  · rename_i o ho
+    dsimp only
+    have h0 := inv_freezeSource h i m o.vals
+    exact invD_finishDerived (invD_objs (invD_objs h0.2 (objs_deriveVals _ _ _ _)) (objs_deriveMaskSel _ _ _ _)) _ _ _ _
+  · exact h.2
+
+theorem inv_deriveStep (c : Nat) (m : Mode) (sel : Sel) (dsel : List (Nat × Sel)) (s : State) (kd : Nat × Nat)
+    (h : Inv s) : Inv (deriveStep c m sel dsel s kd) :=
+  inv_insertDeriv (inv_derive1 h _ _ _) _ _ _ _
+
+theorem inv_derive {s : State} (h : Inv s) (i : Nat) (m : Mode) (sel : Sel) (r : Bool) (dsel : List (Nat × Sel)) :
+    Inv (derive s i m sel r dsel).2 := by
+  unfold derive
+  split
+  · dsimp only
+    split
+    · exact inv_foldl _ (inv_deriveStep _ _ _ _) _ _ (inv_derive1 h _ _ _)
+    · exact inv_derive1 h _ _ _
+  · exact h
+
+theorem inv_copyNR {s : State} (h : Inv s) (i : Nat) (ro : Bool) : Inv (copyNR s i ro).2 := by
+  unfold copyNR
+  split
+  · rename_i o ho
+    split
+    · exact inv_cloneNR h _
+    · dsimp only
+      have h1 : Inv (copyVals s o.vals).2 := inv_arrays h (ext_copyVals _ _) (objs_copyVals _ _)
+      have h2 : Inv (copyMask (copyVals s o.vals).2 o.mask).2 :=
+        inv_arrays h1 (ext_copyMask _ _) (objs_copyMask _ _)
+      have h3 := inv_allocObj h2
+        { o with vals := (copyVals s o.vals).1, mask := (copyMask (copyVals s o.vals).2 o.mask).1, ro := false,
+                 derivs := [], wodc := none } rfl rfl
+        (valOK_mono (ext_copyMask _ _) (copyVals_ok _ _)) (copyMask_ok _ _) (by intro hr; simp at hr)
+      split
+      · exact inv_asRO h3 _ _
+      · exact h3
+  · exact h
+
+theorem inv_copyStep (c : Nat) (ro : Bool) (s : State) (kd : Nat × Nat) (h : Inv s) : Inv (copyStep c ro s kd) :=
+  inv_insertDeriv (inv_copyNR h _ _) _ _ _ _
+
+theorem inv_copy {s : State} (h : Inv s) (i : Nat) (r ro : Bool) : Inv (copy s i r ro).2 := by
+  unfold copy
+  split
+  · dsimp only
+    split
+    · exact inv_copyNR h _ _
+    · split
+      · exact inv_foldl _ (inv_copyStep _ _) _ _ (inv_copyNR h _ _)
+      · exact inv_copyNR h _ _
+  · exact h
+
+theorem inv_negNR {s : State} (h : Inv s) (i : Nat) : Inv (negNR s i).2 := by
+  refine ⟨invA_negNR h.1 i, ?_⟩
+  unfold negNR
+  split
+  · dsimp only
+    refine invDX_allocObj (invD_objs h.2 ?_) _ rfl
+    split
+    · rw [objs_copyMask, objs_negVals]
+    · rw [objs_negVals]
+  · exact h.2
+
+theorem inv_negStep (c : Nat) (s : State) (kd : Nat × Nat) (h : Inv s) : Inv (negStep c s kd) :=
+  inv_insertDeriv (inv_negNR h _) _ _ _ _
+
+theorem inv_neg {s : State} (h : Inv s) (i : Nat) : Inv (neg s i).2 := by
+  unfold neg
+  split
+  · exact inv_foldl _ (inv_negStep _) _ _ (inv_negNR h _)
+  · exact h
+
+theorem inv_unpickle_aux {s1 : State} (h1 : Inv s1) (o : Obj) (nv : Val) (nm : Msk) (top : Bool)
+    (dv : valOK s1 nv) (hnm : mskOK s1 nm) :
+    Inv (if top then
+        (if o.ro then (s1.freezeV nv).freezeM nm else s1).allocObj
+          { o with vals := nv, mask := nm, derivs := [], wodc := none }
+      else
+        ((s1.allocObj { o with vals := nv, mask := nm, ro := false, derivs := [], wodc := none }).1,
+         if o.ro then asRO (s1.allocObj { o with vals := nv, mask := nm, ro := false, derivs := [], wodc := none }).2
+            (s1.allocObj { o with vals := nv, mask := nm, ro := false, derivs := [], wodc := none }).1 true
+         else (s1.allocObj { o with vals := nv, mask := nm, ro := false, derivs := [], wodc := none }).2)).2 := by
+  refine ⟨invA_unpickle_aux h1.1 o nv nm top dv hnm, ?_⟩
+  cases top with
+  | true =>
+    simp only [if_true]
+    refine invDX_allocObj (invD_objs h1.2 ?_) _ rfl
+    split
+    · rw [objs_freezeM, objs_freezeV]
+    · rfl
+  | false =>
+    simp only [Bool.false_eq_true, if_false]
+    have h2 := inv_allocObj h1
+      { o with vals := nv, mask := nm, ro := false, derivs := [], wodc := none } rfl rfl dv hnm
+      (by intro hr; simp at hr)
+    split
+    · exact (inv_asRO h2 _ _).2
+    · exact h2.2
+
+theorem inv_unpickleNR {s : State} (h : Inv s) (o : Obj) (mc : MaskClass) (pm : Option Msk) (top : Bool)
+    (hv : valOK s o.vals) (hm : mskOK s o.mask) (hpm : ∀ m, pm = some m → mskOK s m) :
+    Inv (unpickleNR s o mc pm top).2 := by
+  have hE : Ext s (decode s o mc).2 := ext_decode _ _ _
+  have h1 : Inv (decode s o mc).2 := inv_arrays h hE (objs_decode _ _ _)
+  obtain ⟨dv, dm⟩ := decode_ok s o mc hv hm
+  cases pm with
+  | some m =>
+    unfold unpickleNR
+    exact inv_unpickle_aux h1 o _ m top dv (mskOK_mono hE (hpm m rfl))
+  | none =>
+    unfold unpickleNR
+    exact inv_unpickle_aux h1 o _ _ top dv dm
+
+theorem inv_unpickleStep (c : Nat) (pm : Option Msk) (dmc : List (Nat × MaskClass)) (s : State) (kd : Nat × Nat)
+    (h : Inv s) (hpm : ∀ m, pm = some m → mskOK s m) : Inv (unpickleStep c pm dmc s kd) := by
+  unfold unpickleStep
+  split
+  · rename_i d hd
+    exact inv_insertDeriv (inv_unpickleNR h d _ pm false (h.1 _ d hd).vok (h.1 _ d hd).mok hpm) _ _ _ _
+  · exact h
+
+theorem inv_foldl_ext {α : Type} (P : State → Prop) (f : State → α → State)
+    (hf : ∀ s x, Inv s → P s → Inv (f s x) ∧ P (f s x)) (l : List α) (s : State) (h : Inv s) (hp : P s) :
+    Inv (l.foldl f s) ∧ P (l.foldl f s) := by
+  induction l generalizing s with
+  | nil => exact ⟨h, hp⟩
+  | cons x xs ih => exact ih _ (hf s x h hp).1 (hf s x h hp).2
+
+theorem inv_unpickle {s : State} (h : Inv s) (i : Nat) (mc : MaskClass) (dmc : List (Nat × MaskClass)) :
+    Inv (unpickle s i mc dmc).2 := by
+  unfold unpickle
+  split
+  · rename_i o ho
+    have h1 : Inv (unpickleNR s o mc none true).2 :=
+      inv_unpickleNR h o mc none true (h.1 i o ho).vok (h.1 i o ho).mok (by intro m hm; cases hm)
+    refine (inv_foldl_ext
+      (fun st => ∀ m, parentMaskOf (unpickleNR s o mc none true).2 (unpickleNR s o mc none true).1 = some m → mskOK st m)
+      _ ?_ _ _ h1 (parentMaskOf_ok h1.1 _)).1
+    intro st kd hst hp
+    refine ⟨inv_unpickleStep _ _ _ _ _ hst hp, ?_⟩
+    intro m hm
+    exact mskOK_mono (ext_unpickleStep _ _ _ _ _) (hp m hm)
+  · exact h
+
+theorem inv_setItem (fuel : Nat) : ∀ (s : State) (i : Nat) (pos mpos : List Nat) (mn : Nat), Inv s →
+    Inv (setItem s i pos mpos mn fuel).1 := by
+  induction fuel with
+  | zero => intro s i pos mpos mn h; exact h
+  | succ n ih =>
+    intro s i pos mpos mn h
+    refine ⟨invA_setItem (n + 1) s i pos mpos mn h.1, ?_⟩
+    unfold setItem
+    split
+    · exact h.2
+    · rename_i hrw
+      have hnr := nonro_of_requireWritable s i hrw
+      split
+      · rename_i o ho
+        split
+        · exact h.2
+        · rename_i a _
+          split
+          · exact h.2
+          · dsimp only
+            have h1 : Inv (expandMask s o.mask mn).2 := inv_arrays h (ext_expandMask _ _ _) (objs_expandMask _ _ _)
+            have h2D : InvD ((expandMask s o.mask mn).2.setObj i fun x =>
+                { x with mask := (expandMask s o.mask mn).1 }) :=
+              invDX_setObj_sub h1.1 h1.2 i _ (fun x => ⟨rfl, fun kd hkd => hkd⟩)
+            split
+            · exact invD_objs h2D (objs_writeArr _ _ _)
+            · -- the remaining part of the state change keeps InvA by the lemma above; redo it for InvD
+              have hA_all := invA_setItem (n + 1) s i pos mpos mn h.1
+              have h3D := invD_objs h2D (objs_writeArr _ a pos)
+              have h4D := invD_objs h3D (objs_writeMask _ (expandMask s o.mask mn).1 mpos)
+              -- InvA of the state before the last update of the target
+              have h2A : InvA ((expandMask s o.mask mn).2.setObj i fun x =>
+                  { x with mask := (expandMask s o.mask mn).1 }) := by
+                refine invA_setObj h1.1 i _ ?_
+                intro o' ho'
+                have hb1 := h1.1 i o' ho'
+                rw [objs_expandMask, ho] at ho'
+                cases ho'
+                exact ⟨hb1.vok, expandMask_ok _ _ _ (h.1 i o ho).mok, hb1.dlt, hb1.wlt, fun hr => by
+                  have := hb1.agr hr
+                  exact ⟨this.1, absurd hr (by simp [hnr o ho])⟩⟩
+              have h4A := invA_arrays (invA_arrays h2A (ext_writeArr _ a pos) (objs_writeArr _ a pos))
+                (ext_writeMask _ (expandMask s o.mask mn).1 mpos) (objs_writeMask _ _ _)
+              refine (inv_foldl_pair _ (fun acc (kd : Nat × Nat) hacc => ?_) _ (_, Res.ok) ⟨?_, ?_⟩).2
+              · split
+                · exact hacc
+                · exact ih _ _ _ _ _ hacc
+              · refine invA_setObj h4A i _ ?_
+                intro o' ho'
+                have hb4 := h4A i o' ho'
+                rw [objs_writeMask, objs_writeArr] at ho'
+                simp only [State.setObj, getElem?_upd, if_true, objs_expandMask, ho, Option.map_some] at ho'
+                cases ho'
+                have hm3 := mskOK_mono ((ext_setObj (expandMask s o.mask mn).2 i fun x =>
+                    { x with mask := (expandMask s o.mask mn).1 }).trans (ext_writeArr _ a pos))
+                  (expandMask_ok s o.mask mn (h.1 i o ho).mok)
+                exact ⟨hb4.vok, writeMask_ok _ _ _ hm3, hb4.dlt, by simp,
+                  fun hr => absurd hr (by simp [hnr o ho])⟩
+              · exact invDX_setObj_sub h4A h4D i _ (fun x => ⟨rfl, fun kd hkd => hkd⟩)
+      · exact h.2
+
+theorem inv_zeroDeriv {s : State} (h : Inv s) (n d : Nat) : Inv (zeroDeriv s n d).2 := by
+  refine ⟨invA_zeroDeriv h.1 n d, ?_⟩
+  unfold zeroDeriv
+  split
+  · exact invDX_allocObj (invD_objs h.2 (objs_freshArr _ _ _)) _ rfl
+  · exact h.2
+
+theorem zeroDeriv_below (s : State) (n d j : Nat) (hj : j < s.objs.length) :
+    (zeroDeriv s n d).2.objs[j]? = s.objs[j]? := by
+  unfold zeroDeriv
+  split
+  · simp only [State.allocObj, objs_freshArr]
+    exact List.getElem?_append_left hj
+  · rfl
+
+/-- one pass of the whole-object assignment on a target that is not read-only -/
+theorem inv_setAllStep (i n : Nat) (s : State) (kd : Nat × Nat) (h : Inv s) (hi : i < s.objs.length)
+    (hk : kd.2 < s.objs.length) (hnr : ∀ o, s.objs[i]? = some o → o.ro = false) :
+    Inv (setAllStep i n s kd) ∧ (∀ o, (setAllStep i n s kd).objs[i]? = some o → o.ro = false) := by
+  have hz := inv_zeroDeriv h n kd.2
+  have hlook : (zeroDeriv s n kd.2).2.objs[i]? = s.objs[i]? := zeroDeriv_below s n kd.2 i hi
+  refine ⟨⟨invA_setAllStep i n s kd h.1 hi hk, ?_⟩, ?_⟩
+  · unfold setAllStep
+    dsimp only
+    refine invDX_setObj hz.2 i _ ?_
+    intro o' ho'
+    rw [hlook] at ho'
+    refine ⟨fun hr => hr, ?_⟩
+    intro _ hr
+    exact absurd hr (by simp [hnr o' ho'])
+  · intro o ho
+    unfold setAllStep at ho
+    simp only [State.setObj, getElem?_upd, if_true, hlook] at ho
+    cases hs : s.objs[i]? with
+    | none => simp [hs] at ho
+    | some x =>
+      simp [hs] at ho
+      subst ho
+      exact hnr x hs
+
+theorem inv_setAll {s : State} (h : Inv s) (i : Nat) : Inv (setAll s i).1 := by
+  unfold setAll
+  split
+  · exact h
+  · rename_i hrw
+    have hnr := nonro_of_requireWritable s i hrw
+    split
+    · rename_i o ho
+      split
+      · exact h
+      · rename_i a ha
+        split
+        · exact h
+        · have hb := h.1 i o ho
+          have hi : i < s.objs.length := (List.getElem?_eq_some_iff.mp ho).1
+          have h1 : Inv (s.freshArr (allPos s a).length true).2 :=
+            inv_arrays h (ext_freshArr _ _ _) (objs_freshArr _ _ _)
+          have h2A : InvA ((s.freshArr (allPos s a).length true).2.setObj i fun x =>
+              { x with vals := .arr (s.freshArr (allPos s a).length true).1, mask := .sc false, wodc := none }) := by
+            refine invA_setObj h1.1 i _ ?_
+            intro o' ho'
+            rw [objs_freshArr, ho] at ho'
+            cases ho'
+            have hb1 := h1.1 i o (by rw [objs_freshArr]; exact ho)
+            exact ⟨freshArr_ok _ _ _, trivial, hb1.dlt, by simp, fun hr => absurd hr (by simp [hnr o ho])⟩
+          have h2D := invDX_setObj_sub h1.1 h1.2 i (fun x =>
+              { x with vals := Val.arr (s.freshArr (allPos s a).length true).1, mask := Msk.sc false, wodc := none })
+              (fun x => ⟨rfl, fun kd hkd => hkd⟩)
+          have hlen2 : ((s.freshArr (allPos s a).length true).2.setObj i fun x =>
+              { x with vals := .arr (s.freshArr (allPos s a).length true).1, mask := .sc false,
+                       wodc := none }).objs.length = s.objs.length := by
+            simp [State.setObj, length_upd, objs_freshArr]
+          have hnr2 : ∀ x, ((s.freshArr (allPos s a).length true).2.setObj i fun x =>
+              { x with vals := .arr (s.freshArr (allPos s a).length true).1, mask := .sc false,
+                       wodc := none }).objs[i]? = some x → x.ro = false := by
+            intro x hx
+            simp only [State.setObj, getElem?_upd, if_true, objs_freshArr, ho, Option.map_some] at hx
+            cases hx
+            exact hnr o ho
+          have key : ∀ (l : List (Nat × Nat)) (st : State), Inv st → s.objs.length ≤ st.objs.length →
+              (∀ x, st.objs[i]? = some x → x.ro = false) → (∀ kd ∈ l, kd.2 < s.objs.length) →
+              Inv (l.foldl (setAllStep i (allPos s a).length) st) := by
+            intro l
+            induction l with
+            | nil => intro st hst _ _ _; exact hst
+            | cons x xs ih =>
+              intro st hst hle hn hl
+              simp only [List.foldl_cons]
+              obtain ⟨hI, hN⟩ := inv_setAllStep i _ st x hst (Nat.lt_of_lt_of_le hi hle)
+                (Nat.lt_of_lt_of_le (hl x (List.mem_cons_self ..)) hle) hn
+              refine ih _ hI ?_ hN (fun kd hkd => hl kd (List.mem_cons_of_mem _ hkd))
+              exact Nat.le_trans hle (by
+                unfold setAllStep
+                simp only [State.setObj, length_upd]
+                exact (oext_zeroDeriv (fun _ => True) st _ _).len)
+          exact key _ _ ⟨h2A, h2D⟩ (by rw [hlen2]; exact Nat.le_refl _) hnr2 (fun kd hkd => (hb.dlt kd hkd).2)
+    · exact h
+
+theorem inv_iop {s : State} (h : Inv s) (i : Nat) (fast un : Bool) : Inv (iop s i fast un).1 := by
+  refine ⟨invA_iop h.1 i fast un, ?_⟩
+  unfold iop
+  split
+  · exact h.2
+  · split
+    · exact h.2
+    · split
+      · rename_i o _
+        split
+        · exact invDX_setObj_sub (invA_arrays h.1 (ext_stamps _ _) (objs_stamps _ _))
+            (invD_objs h.2 (objs_stamps _ _)) i _ (fun x => ⟨rfl, fun kd hkd => hkd⟩)
+        · rename_i a _
+          dsimp only
+          have h1 : Inv (s.writeArr a (allPos s a)).1 := inv_arrays h (ext_writeArr _ _ _) (objs_writeArr _ _ _)
+          split
+          · exact h1.2
+          · split
+            · exact invDX_setObj_sub h1.1 h1.2 i _ (fun x => ⟨rfl, fun kd hkd => hkd⟩)
+            · have h2 := inv_foldl _ (fun st (kd : Nat × Nat) hst => inv_insertDeriv hst i kd.1 kd.2 false) o.derivs _ h1
+              exact invDX_setObj_sub h2.1 h2.2 i _ (fun x => ⟨rfl, fun kd hkd => hkd⟩)
+      · exact h.2
+
+theorem inv_setUnits {s : State} (h : Inv s) (i u : Nat) (ov : Bool) : Inv (setUnits s i u ov).1 := by
+  refine ⟨invA_setUnits h.1 i u ov, ?_⟩
+  unfold setUnits
+  split
+  · split
+    · exact h.2
+    · split
+      · exact h.2
+      · exact invDX_setObj_sub h.1 h.2 i _ (fun x => ⟨rfl, fun kd hkd => hkd⟩)
+  · exact h.2
+
+theorem inv_deleteDeriv {s : State} (h : Inv s) (i k : Nat) (ov : Bool) : Inv (deleteDeriv s i k ov).1 := by
+  refine ⟨invA_deleteDeriv h.1 i k ov, ?_⟩
+  unfold deleteDeriv
+  split
+  · exact h.2
+  · split
+    · exact invDX_setObj_sub h.1 h.2 i _ (fun x => ⟨rfl, fun kd hkd => (List.mem_filter.mp hkd).1⟩)
+    · exact h.2
+
+theorem inv_deleteDerivs {s : State} (h : Inv s) (i : Nat) (ov : Bool) : Inv (deleteDerivs s i ov).1 := by
+  refine ⟨invA_deleteDerivs h.1 i ov, ?_⟩
+  unfold deleteDerivs
+  split
+  · exact h.2
+  · split
+    · exact invDX_setObj_sub h.1 h.2 i _ (fun x => ⟨rfl, fun kd hkd => by simp at hkd⟩)
+    · exact h.2
+
+theorem inv_insertDerivs {s : State} (h : Inv s) (i : Nat) (kds : List (Nat × Nat)) (ov : Bool) :
+    Inv (insertDerivs s i kds ov).1 := by
+  unfold insertDerivs
+  split
+  · split
+    · exact h
+    · refine inv_foldl_pair _ (fun acc (kd : Nat × Nat) hacc => ?_) _ (s, Res.ok) h
+      split
+      · exact hacc
+      · exact inv_insertDeriv hacc _ _ _ _
+  · exact h
+
+theorem inv_mkObj {s : State} (h : Inv s) (n mn : Nat) (mask : Option Bool) (u d : Bool) :
+    Inv (mkObj s n mn mask u d).2 := by
+  refine ⟨invA_mkObj h.1 n mn mask u d, ?_⟩
+  unfold mkObj
+  dsimp only
+  cases mask with
+  | some b => exact invDX_allocObj (invD_objs h.2 (objs_freshArr _ _ _)) _ rfl
+  | none =>
+    exact invDX_allocObj (invD_objs (invD_objs h.2 (objs_freshArr _ _ _)) (objs_freshArr _ _ _)) _ rfl
+
+theorem inv_mkScalar {s : State} (h : Inv s) (m u d : Bool) : Inv (mkScalar s m u d).2 :=
+  ⟨invA_mkScalar h.1 m u d, invDX_allocObj (invD_objs h.2 (objs_stamps _ _)) _ rfl⟩
+
+/-- every call of the alphabet keeps both invariants -/
+theorem inv_step {s : State} (h : Inv s) (op : Op) : Inv (step s op).1 := by
+  cases op <;> simp only [step, objRes]
+  case mk => exact inv_mkObj h _ _ _ _ _
+  case mks => exact inv_mkScalar h _ _ _
+  case derive => split <;> first | exact inv_derive h _ _ _ _ _ | exact h
+  case wod => split <;> first | exact inv_wodOf h _ | exact h
+  case clone => split <;> first | exact inv_clone h _ _ | exact h
+  case copy => split <;> first | exact inv_copy h _ _ _ | exact h
+  case neg => split <;> first | exact inv_neg h _ | exact h
+  case pickle => split <;> first | exact inv_unpickle h _ _ _ | exact h
+  case getDeriv => split <;> (try split) <;> exact h
+  case rawRef => split <;> first | exact inv_arrays h (Ext.of_same rfl rfl) rfl | exact h
+  case rawView =>
+    split
+    · exact inv_arrays (inv_arrays h (ext_viewOf _ _ _ _) (objs_viewOf _ _ _ _)) (Ext.of_same rfl rfl) rfl
+    · exact h
+  case setItem => exact inv_setItem _ _ _ _ _ _ h
+  case setAll => exact inv_setAll h _
+  case iop => exact inv_iop h _ _ _
+  case setUnits => exact inv_setUnits h _ _ _
+  case deleteDeriv => exact inv_deleteDeriv h _ _ _
+  case deleteDerivs => exact inv_deleteDerivs h _ _
+  case insertDeriv => exact inv_insertDeriv h _ _ _ _
+  case insertDerivs => exact inv_insertDerivs h _ _ _
+  case asReadonly => split <;> (try dsimp only) <;> first | exact inv_asRO h _ _ | exact h
+  case requireWritable => split <;> exact h
+  case write =>
+    split
+    · split <;> exact inv_arrays h (ext_writeArr _ _ _) (objs_writeArr _ _ _)
+    · exact h
+
+theorem inv_run (ops : List Op) : ∀ s : State, Inv s → Inv (run s ops) := by
+  induction ops with
+  | nil => intro s h; exact h
+  | cons op ops ih => intro s h; exact ih _ (inv_step h op)
+
+theorem inv_empty : Inv State.empty :=
+  ⟨invA_empty, fun i o _ h => by simp [State.empty] at h⟩
 
 end PMV.ReadOnly
